@@ -951,6 +951,18 @@ fn gen_ext_task(rng: &mut Rng, origin: String) -> ExtTask {
                 "definition: forall X (dm(X) <-> in1(X) and in1(Y)).",
                 "definition: forall X (dm(X) <-> nowhere(X)).",
                 "definition: forall X (out1(X) <-> in1(X)).",
+                // the same named lemma stated again (each statement has to be proved in its own directions)
+                "lemma(forward)[a]: forall X (in1(X) -> out1(X)). lemma(backward)[a]: forall X (in1(X) -> out1(X)).",
+                "lemma(forward)[a]: forall X (in1(X) -> out1(X)). lemma[a]: forall X (in1(X) -> out1(X)).",
+                "lemma(backward)[a]: forall X (out1(X) -> in1(X)). lemma(forward)[a]: forall X (out1(X) -> in1(X)). lemma[b]: forall X (out1(X) -> in1(X)).",
+                "lemma[a]: forall X (in1(X) -> out1(X)). lemma[a]: forall X (in1(X) -> out1(X)).",
+                "inductive-lemma(forward)[a]: forall N$i (N$i >= 0 -> (in1(N$i) -> out1(N$i))). inductive-lemma(backward)[a]: forall N$i (N$i >= 0 -> (in1(N$i) -> out1(N$i))).",
+                // ... a private predicate of either side (taken, whichever side it occurs on), an input predicate
+                "definition: forall X (aux(X) <-> in1(X)).",
+                "definition: forall X (q(X) <-> in1(X)).",
+                "definition: forall X (r(X) <-> in1(X)). lemma: forall X (r(X) -> in1(X)).",
+                "definition: forall X (q_p(X) <-> in1(X)).",
+                "definition: forall X (in2(X) <-> in1(X)).",
                 "inductive-lemma: forall N$i (0 <= N$i <= 5 -> out1(N$i)).",
                 "inductive-lemma: forall N (N >= 0 -> out1(N)).",
                 "inductive-lemma: forall N$i (N$i + 1 >= 0 -> out1(N$i)).",
